@@ -73,6 +73,7 @@ structure Inst where
   groupDur  : Array Rat := #[]
   units     : Array PlanU := #[]
   parent    : Array (Option UnitIx) := #[]
+  loose     : List UnitIx := []       -- plan-all units that may spread over vehicles (model API only)
   nres      : Nat := 0
   -- option flags (true = constraint active)
   cCapacity  : Bool := true
@@ -314,10 +315,10 @@ def unitsOK (inst : Inst) (routes : List (List StopIx)) : Option String :=
             let k := (ms.filter (unitPlanned inst routes)).length
             let t := (ms.filter (unitTouched inst routes)).length
             if t = 0 then none
-            else if k < ms.length then some "group-partly-planned"
+            else if k < ms.length then some (if inst.loose.contains u then "loose-group-partly-planned" else "group-partly-planned")
             else
               let vs := (unitStops inst u).map (routeOf routes)
-              if !(vs.all (· == vs.headD none)) then some "group-split-over-vehicles" else none) with
+              if !(inst.loose.contains u) && !(vs.all (· == vs.headD none)) then some "group-split-over-vehicles" else none) with
     | some c => some c
     | none =>
       -- alternates only on their vehicle; fixed stops stay on their vehicle
@@ -343,7 +344,7 @@ def isRoot (inst : Inst) (u : UnitIx) : Bool := (inst.parent.getD u none).isNone
 def unitKind (inst : Inst) (u : UnitIx) : String :=
   match inst.units.getD u (.stops [] []) with
   | .stops ss _ => if ss.length > 1 then "stops-multi" else "stops-single"
-  | .units oneOf _ => if oneOf then "oneof" else "all"
+  | .units oneOf _ => if oneOf then "oneof" else if inst.loose.contains u then "allloose" else "all"
 
 /-- First failing clause of C08 and the unit it fails on. -/
 def bookkeepingBad (inst : Inst) (routes : List (List StopIx)) (b : Books) : Option (String × UnitIx) :=
